@@ -21,6 +21,7 @@ func init() {
 	predicates["raw"] = predRaw
 	predicates["literal"] = predLiteral
 	predicates["unquoted"] = predUnquoted
+	predicates["mixed"] = predMixed
 }
 
 var hardRunes = []rune{'"', '\'', '`', '\\', '/', 0, 1, 0x1f, 0x7f, 0x80, 0xff, 0x2028, 0x2029, 0xfffd, 0xfeff, 'a', 'b', ' ', '\t', '\n', '\r', 'é', 0x0301, 0x1d4b3, 0x10ffff, 0xe000, 'u', 'n', '0', '{', '[', ']', '}', '.', '*', '&', '|'}
@@ -449,4 +450,103 @@ func TestC14Whitespace(t *testing.T) {
 		}
 		run(t, Case{Property: "C14", Kind: "ws", Expr: spaced, Extra: map[string]interface{}{"alt": alt}})
 	})
+}
+
+// predMixed: Expr is a multi-select list (or hash) of several string-like tokens; Doc maps
+// every quoted name to a marker; Extra["want"] is the canonical JSON of the value every
+// token must denote in its position (scanner state carried from one token to the next).
+func predMixed(c Case) (r Result) {
+	doc := mustJSON(c.Doc)
+	want := mustJSON(c.Extra["want"].(string))
+	expr := c.expr()
+	// the reference model reads the tokens independently of the generator's bookkeeping
+	if rv, rerr := refEval(expr, doc); rerr != nil || !reflect.DeepEqual(rv, want) {
+		r.Discard = "HARNESS:mixed-token-bookkeeping"
+		r.Violation = fmt.Sprintf("generator expects %s, reference model says %s (%v)", ref.Canon(want), show(rv), rerr)
+		return
+	}
+	r.Nontrivial = true
+	for _, o := range []libOut{libSearch(expr, doc), libCompileSearch(expr, doc)} {
+		if o.Panic != nil || o.Err != nil {
+			r.Violation = "an expression made of valid string-like tokens was not accepted"
+			r.Got = showOut(o)
+			return
+		}
+		if !reflect.DeepEqual(o.Val, want) {
+			r.Violation = "a string-like token after other string-like tokens does not denote what it spells"
+			r.Expected, r.Got = ref.Canon(want), show(o.Val)
+			return
+		}
+	}
+	return
+}
+
+// TestC14Mixed: two to six raw strings, quoted identifiers, literals and unquoted
+// identifiers in one expression, hard characters in each.
+func TestC14Mixed(t *testing.T) {
+	rapid.Check(t, func(t *rapid.T) {
+		n := 2 + uni(t, 5, "n")
+		doc := map[string]interface{}{}
+		marker := func(s string) interface{} {
+			if m, ok := doc[s]; ok {
+				return m
+			}
+			m := fmt.Sprintf("M%d", len(doc))
+			doc[s] = m
+			return m
+		}
+		toks := make([]string, n)
+		vals := make([]interface{}, n)
+		for i := 0; i < n; i++ {
+			switch uni(t, 4, "kind") {
+			case 0:
+				s := genHardString(t, "raw")
+				if !inRawDomain(s) {
+					s = "it's \\y"
+				}
+				toks[i], vals[i] = "'"+strings.Replace(s, "'", "\\'", -1)+"'", s
+			case 1:
+				s := genHardString(t, "q")
+				toks[i], vals[i] = `"`+escapeJSONString(t, s, '"')+`"`, marker(s)
+			case 2:
+				v := genHardValue(t, 1)
+				text := spellJSON(t, v)
+				if dec, err := ref.ParseJSON(unescapeBackticks(text)); err != nil || !reflect.DeepEqual(dec, v) {
+					t.Fatalf("HARNESS-ERROR: JSON speller wrote %q for %s (%v)", text, ref.Canon(v), err)
+				}
+				toks[i], vals[i] = "`"+text+"`", v
+			default:
+				s := []string{"a", "b_1", "Zz", "_", "null", "true"}[uni(t, 6, "ident")]
+				toks[i], vals[i] = s, marker(s)
+			}
+		}
+		sep := []string{",", ", ", " ,\n", ",\t"}[uni(t, 4, "sep")]
+		var expr string
+		var want interface{}
+		if uni(t, 3, "hash") == 0 {
+			parts := make([]string, n)
+			m := map[string]interface{}{}
+			for i := range toks {
+				k := genHardString(t, "key")
+				parts[i] = `"` + escapeJSONString(t, k, '"') + `":` + toks[i]
+				m[k] = vals[i] // a repeated key keeps the last value
+			}
+			expr, want = "{"+strings.Join(parts, sep)+"}", m
+		} else {
+			expr, want = "["+strings.Join(toks, sep)+"]", vals
+		}
+		run(t, Case{Property: "C14", Kind: "mixed", Expr: expr, Doc: ref.Canon(doc), Extra: map[string]interface{}{"want": ref.Canon(want)}})
+	})
+}
+
+func refEval(expr string, doc interface{}) (interface{}, error) {
+	toks, st, why := ref.Lex(expr)
+	if st != ref.LexOK {
+		return nil, fmt.Errorf("not lexable: %s", why)
+	}
+	n, err := ref.Parse(toks)
+	if err != nil {
+		return nil, err
+	}
+	return (&ref.Ev{}).Eval(n, ref.DeepCopy(doc))
 }
